@@ -80,7 +80,7 @@ impl Prop for C08 {
         shrink_case(case)
     }
     fn rule() -> String {
-        format!("(systematic part) every located field of a fixed list of 20 seed images (first the everything-at-once image: one track per kind, every metadata and layout variant, a leading free box in every container; two regular files continued by fragments) x 13 boundary values, one substitution per run (thorough: all {} (image, field, value) triples; quick: the first 50 000), then coordinated pairs: the size of every leaf box and one of its first three words inflated together (4 x 5 values; thorough: all {} pairs, quick: the first 10 000), then {} vacuous-ancestor cases on images whose boxes all have 64-bit headers (the outermost or every enclosing box claims a size with the top bit set while a leaf lies about its size and a count); {}", crate::modee::sweep_total(), crate::modee::pair_total(), crate::modee::vac_total(), "(seeded part) same storage-fault campaign as C06 (own case stream; 3 in 8 cases through a stream that transfers at most 16 / a random small number of bytes per call) with the counting allocator armed around every API call: largest single request <= 1 MiB + 64n, peak live bytes <= 8 MiB + 64n, cumulative <= 16 MiB + 128n (n = image length; the unchanged tree peaks at 2.1 MiB on small images and at 12 bytes per input byte on images with hundreds of tracks and thousands of fragments); requests up to 6 GiB are served (untouched pages) so the run continues and the site is recorded, larger ones abort the worker, which the supervisor reports; distinct_nontrivial = distinct (fault kind, box path:field, outcome class) triples")
+        format!("(systematic part) every located field of a fixed list of 20 seed images (first the everything-at-once image: one track per kind, every metadata and layout variant, a leading free box in every container; two regular files continued by fragments) x 13 boundary values, one substitution per run (thorough: all {} (image, field, value) triples; quick: the first 50 000), then coordinated pairs: the size of every leaf box and one of its first three words inflated together (4 x 5 values; thorough: all {} pairs, quick: the first 10 000), then {} vacuous-ancestor cases on images whose boxes all have 64-bit headers (one enclosing box, or every enclosing box, claims a size with the top bit set while a leaf lies about its size and a count); {}", crate::modee::sweep_total(), crate::modee::pair_total(), crate::modee::vac_total(), "(seeded part) same storage-fault campaign as C06 (own case stream; 3 in 8 cases through a stream that transfers at most 16 / a random small number of bytes per call) with the counting allocator armed around every API call: largest single request <= 1 MiB + 64n, peak live bytes <= 8 MiB + 64n, cumulative <= 16 MiB + 128n (n = image length; the unchanged tree peaks at 2.1 MiB on small images and at 12 bytes per input byte on images with hundreds of tracks and thousands of fragments); requests up to 6 GiB are served (untouched pages) so the run continues and the site is recorded, larger ones abort the worker, which the supervisor reports; distinct_nontrivial = distinct (fault kind, box path:field, outcome class) triples")
     }
     fn assumptions() -> Vec<String> {
         vec![
